@@ -1,1 +1,602 @@
-//! (stub) filled in by its owner
+//! Hand-written support code of the generated system-data type zoo (C06, world half of C13).
+//!
+//! `gen/zoo.py` turns shape tables (emitted by TLC from `spec/MCSysData.tla`, or produced by the
+//! generator itself: arity patterns, deep nestings) into concrete Rust `SystemData` types
+//! (`gen-out/zoo_cases.rs`, one `zoo_case!` invocation per type) plus a JSON descriptor file.
+//! This module holds the resource types, the type-erased per-case operations (`Ops`), the
+//! single-threaded borrow probe and the driver that records one trace block per case
+//! (`reset`, `decl`, `fetch`, `setup` events; judged by `spec/SysDataTrace.tla`).
+//!
+//! Probe of a cell (atomic_refcell 0.1.14): `try_borrow_mut` is a compare-exchange(0, HIGH) and
+//! leaves the counter untouched when it fails; when it succeeds the guard is dropped at once
+//! (store 0) => "free".  Otherwise `try_borrow` does fetch_add(1): success (=> "shared") is undone by
+//! dropping the guard; failure (=> "exclusive") leaves an increment *above* the HIGH bit, which
+//! atomic_refcell documents as benign: the state stays "exclusively borrowed" and the writer's
+//! release stores 0.  All probes run on the only thread that touches the world.
+
+use std::{
+    cell::RefCell,
+    panic::{catch_unwind, AssertUnwindSafe},
+};
+
+use rand::{rngs::StdRng, seq::SliceRandom, Rng};
+use serde::Deserialize;
+use serde_json::{json, Value};
+use shred::{
+    cell::{AtomicRef, AtomicRefMut},
+    Accessor, DynamicSystemData, Resource, ResourceId, SystemData, World,
+};
+
+pub const DEFAULT_BASE: u32 = 100_000;
+pub const NCONC: usize = 26;
+
+thread_local! {
+    /// concrete indices for which `Default::default()` ran, in order
+    static DEFAULT_LOG: RefCell<Vec<usize>> = RefCell::new(Vec::new());
+}
+
+pub fn log_default(i: usize) {
+    DEFAULT_LOG.with(|l| l.borrow_mut().push(i));
+}
+fn take_default_log() -> Vec<usize> {
+    DEFAULT_LOG.with(|l| std::mem::take(&mut *l.borrow_mut()))
+}
+
+pub trait Hrtb<'b> {}
+
+pub trait ZRes: Resource + Sized {
+    fn mk(v: u32) -> Self;
+    fn val(&self) -> u32;
+}
+
+/// Type-erased access to one concrete resource type.
+pub struct Slot {
+    pub name: &'static str,
+    pub idx: usize,
+    pub has_default: bool,
+    pub id: fn() -> ResourceId,
+    pub insert: fn(&mut World, u32),
+    pub get: fn(&World) -> Option<u32>,
+    pub tyname: fn() -> &'static str,
+}
+
+fn rid<T: ZRes>() -> ResourceId {
+    ResourceId::new::<T>()
+}
+fn ins<T: ZRes>(w: &mut World, v: u32) {
+    w.insert(T::mk(v));
+}
+fn get<T: ZRes>(w: &World) -> Option<u32> {
+    w.try_fetch::<T>().map(|x| x.val())
+}
+fn tyname<T: ZRes>() -> &'static str {
+    std::any::type_name::<T>()
+}
+
+macro_rules! zres {
+    ($( $i:expr => $d:ident $n:ident ),* $(,)?) => {
+        $(
+            /// resource with a `Default` (records every call of it)
+            #[derive(Debug)]
+            pub struct $d(pub u32);
+            impl Default for $d {
+                fn default() -> Self { log_default($i); $d(DEFAULT_BASE + $i) }
+            }
+            impl ZRes for $d { fn mk(v: u32) -> Self { $d(v) } fn val(&self) -> u32 { self.0 } }
+            impl<'b> Hrtb<'b> for $d {}
+            /// resource WITHOUT `Default` (only usable through the Expect / Option forms)
+            #[derive(Debug)]
+            pub struct $n(pub u32);
+            impl ZRes for $n { fn mk(v: u32) -> Self { $n(v) } fn val(&self) -> u32 { self.0 } }
+            impl<'b> Hrtb<'b> for $n {}
+        )*
+        pub static D_SLOTS: [Slot; NCONC] = [ $( Slot { name: stringify!($d), idx: $i, has_default: true,
+            id: rid::<$d>, insert: ins::<$d>, get: get::<$d>, tyname: tyname::<$d> } ),* ];
+        pub static N_SLOTS: [Slot; NCONC] = [ $( Slot { name: stringify!($n), idx: $i, has_default: false,
+            id: rid::<$n>, insert: ins::<$n>, get: get::<$n>, tyname: tyname::<$n> } ),* ];
+    };
+}
+
+zres! {
+    0 => D0 N0, 1 => D1 N1, 2 => D2 N2, 3 => D3 N3, 4 => D4 N4, 5 => D5 N5, 6 => D6 N6, 7 => D7 N7,
+    8 => D8 N8, 9 => D9 N9, 10 => D10 N10, 11 => D11 N11, 12 => D12 N12, 13 => D13 N13, 14 => D14 N14,
+    15 => D15 N15, 16 => D16 N16, 17 => D17 N17, 18 => D18 N18, 19 => D19 N19, 20 => D20 N20,
+    21 => D21 N21, 22 => D22 N22, 23 => D23 N23, 24 => D24 N24, 25 => D25 N25,
+}
+
+pub fn slot_by_name(name: &str) -> Option<&'static Slot> {
+    D_SLOTS.iter().chain(N_SLOTS.iter()).find(|s| s.name == name)
+}
+
+// ------------------------------------------------------------------ per-case operations
+
+pub type Decl = (Vec<ResourceId>, Vec<ResourceId>);
+
+/// Type-erased operations on one generated system-data type `T` (and on the real `System`
+/// whose `SystemData` is `T`); filled in by `zoo_case!`.
+pub struct Ops {
+    pub id: u32,
+    /// `T::reads()`, `T::writes()`
+    pub decl: fn() -> Decl,
+    /// fetch `T` (via 0: `T::fetch`, 1: `World::system_data`, 2: `DynamicSystemData::fetch` with the
+    /// `StaticAccessor`), classify the given cells while the value is alive, drop it
+    pub fetch: for<'w> fn(&'w World, u8, &[ResourceId]) -> Vec<u8>,
+    /// via 0: `T::setup`, 1: `World::setup::<T>`, 2: `DynamicSystemData::setup`
+    pub setup: fn(&mut World, u8),
+    /// `System::accessor()` of the per-case system: reads()/writes() through `StaticAccessor`
+    pub acc: fn() -> Decl,
+    /// `RunNow::run_now` of the per-case system; cells classified inside `System::run`
+    pub sys_run: for<'w> fn(&'w World, &[ResourceId]) -> Vec<u8>,
+    /// `RunNow::setup` of the per-case system
+    pub sys_setup: fn(&mut World),
+}
+
+pub fn decl_of<'a, T: SystemData<'a>>() -> Decl {
+    (T::reads(), T::writes())
+}
+
+pub fn fetch_of<'a, T: SystemData<'a>>(w: &'a World, via: u8, ids: &[ResourceId]) -> Vec<u8> {
+    let d: T = match via {
+        0 => T::fetch(w),
+        1 => w.system_data::<T>(),
+        _ => {
+            let acc = <<T as DynamicSystemData<'a>>::Accessor as Accessor>::try_new().expect("static accessor");
+            <T as DynamicSystemData<'a>>::fetch(&acc, w)
+        }
+    };
+    let cls = classify(w, ids);
+    drop(d);
+    cls
+}
+
+pub fn setup_of<'a, T: SystemData<'a>>(w: &mut World, via: u8) {
+    match via {
+        0 => T::setup(w),
+        1 => w.setup::<T>(),
+        _ => {
+            let acc = <<T as DynamicSystemData<'a>>::Accessor as Accessor>::try_new().expect("static accessor");
+            <T as DynamicSystemData<'a>>::setup(&acc, w)
+        }
+    }
+}
+
+/// State of the per-case probing system.
+pub struct SysProbe {
+    pub world: *const World,
+    pub ids: Vec<ResourceId>,
+    pub seen: Option<Vec<u8>>,
+}
+
+impl SysProbe {
+    pub fn idle() -> Self {
+        SysProbe { world: std::ptr::null(), ids: Vec::new(), seen: None }
+    }
+    /// called from `System::run` while the fetched data is alive
+    pub fn in_run(&mut self) {
+        if !self.world.is_null() {
+            // the world is only shared-borrowed while a system runs; this is the only thread
+            let w = unsafe { &*self.world };
+            self.seen = Some(classify(w, &self.ids));
+        }
+    }
+}
+
+/// One generated type.  `$lt` is the fetch lifetime used inside `$t`.
+#[macro_export]
+macro_rules! zoo_case {
+    ($m:ident, $id:expr, $lt:lifetime, $t:ty) => {
+        pub mod $m {
+            #![allow(unused_imports)]
+            use super::*;
+            pub struct Sys(pub $crate::zoo::SysProbe);
+            impl<$lt> shred::System<$lt> for Sys {
+                type SystemData = $t;
+                fn run(&mut self, data: Self::SystemData) {
+                    self.0.in_run();
+                    drop(data);
+                }
+            }
+            fn decl<$lt>() -> $crate::zoo::Decl {
+                $crate::zoo::decl_of::<$t>()
+            }
+            fn fetch<$lt>(w: &$lt shred::World, via: u8, ids: &[shred::ResourceId]) -> Vec<u8> {
+                $crate::zoo::fetch_of::<$t>(w, via, ids)
+            }
+            fn setup<$lt>(w: &mut shred::World, via: u8) {
+                $crate::zoo::setup_of::<$t>(w, via)
+            }
+            fn acc() -> $crate::zoo::Decl {
+                use shred::{Accessor, System};
+                let s = Sys($crate::zoo::SysProbe::idle());
+                let a = s.accessor();
+                (a.reads(), a.writes())
+            }
+            fn sys_run<$lt>(w: &$lt shred::World, ids: &[shred::ResourceId]) -> Vec<u8> {
+                let mut s = Sys($crate::zoo::SysProbe { world: w as *const _, ids: ids.to_vec(), seen: None });
+                shred::RunNow::run_now(&mut s, w);
+                s.0.seen.take().unwrap_or_default()
+            }
+            fn sys_setup(w: &mut shred::World) {
+                let mut s = Sys($crate::zoo::SysProbe::idle());
+                shred::RunNow::setup(&mut s, w);
+            }
+            pub static OPS: $crate::zoo::Ops = $crate::zoo::Ops {
+                id: $id,
+                decl,
+                fetch,
+                setup,
+                acc,
+                sys_run,
+                sys_setup,
+            };
+        }
+    };
+}
+
+// ------------------------------------------------------------------ borrow probe
+
+/// 0 free, 1 shared, 2 exclusive, 3 no such cell.  See the module comment.
+pub fn classify(w: &World, ids: &[ResourceId]) -> Vec<u8> {
+    ids.iter()
+        .map(|id| match unsafe { w.try_fetch_internal(id.clone()) } {
+            None => 3,
+            Some(cell) => {
+                if let Ok(g) = cell.try_borrow_mut() {
+                    drop(g);
+                    0
+                } else if let Ok(g) = cell.try_borrow() {
+                    drop(g);
+                    1
+                } else {
+                    2
+                }
+            }
+        })
+        .collect()
+}
+
+enum Held<'w> {
+    _R(AtomicRef<'w, Box<dyn Resource>>),
+    _W(AtomicRefMut<'w, Box<dyn Resource>>),
+}
+
+// ------------------------------------------------------------------ descriptors
+
+#[derive(Deserialize, Clone, Debug)]
+pub struct Expect {
+    pub reads: Vec<u32>,
+    pub writes: Vec<u32>,
+    pub out: String,
+    pub pres: u32,
+    pub alive: Vec<u8>,
+    pub after: Vec<u8>,
+    pub created: Vec<u32>,
+    /// presence after setup
+    pub w1: Vec<bool>,
+}
+
+#[derive(Deserialize, Clone, Debug)]
+pub struct Run {
+    pub present: Vec<bool>,
+    pub held: Vec<u8>,
+    #[serde(default)]
+    pub exp: Option<Expect>,
+}
+
+#[derive(Deserialize, Clone, Debug)]
+pub struct CaseDesc {
+    pub id: u32,
+    pub origin: String,
+    pub ty: String,
+    pub shape: Value,
+    pub nres: usize,
+    /// concrete type per abstract resource ("D3", "N0", ...)
+    pub conc: Vec<String>,
+    /// runs with reference values emitted by TLC (spec -> implementation)
+    #[serde(default)]
+    pub runs: Vec<Run>,
+    /// number of additional random fetch / setup runs
+    #[serde(default)]
+    pub extra: usize,
+}
+
+#[derive(Deserialize, Debug)]
+pub struct DescFile {
+    pub hash: String,
+    pub cases: Vec<CaseDesc>,
+}
+
+#[derive(Default, Debug)]
+pub struct Stats {
+    pub cases: usize,
+    pub events: usize,
+    pub fetch_runs: usize,
+    pub setup_runs: usize,
+    pub fetch_ok: usize,
+    pub fetch_missing: usize,
+    pub fetch_borrow: usize,
+    pub fetch_other: usize,
+    pub with_held: usize,
+    pub model_runs: usize,
+    pub model_matched: usize,
+    pub model_mismatch: usize,
+    pub mismatch_samples: Vec<Value>,
+}
+
+// ------------------------------------------------------------------ driver
+
+fn abstract_of(slots: &[&'static Slot], id: &ResourceId) -> u32 {
+    slots.iter().position(|s| (s.id)() == *id).map(|p| p as u32 + 1).unwrap_or(0)
+}
+
+fn abstract_list(slots: &[&'static Slot], v: &[ResourceId]) -> Vec<u32> {
+    v.iter().map(|id| abstract_of(slots, id)).collect()
+}
+
+fn panic_text(p: Box<dyn std::any::Any + Send>) -> String {
+    if let Some(s) = p.downcast_ref::<String>() {
+        s.clone()
+    } else if let Some(s) = p.downcast_ref::<&'static str>() {
+        s.to_string()
+    } else {
+        String::from("<non-string panic>")
+    }
+}
+
+/// ("missing" | "borrow" | "other", abstract resource named by the message or 0)
+fn classify_panic(slots: &[&'static Slot], msg: &str) -> (&'static str, u32) {
+    let kind = if msg.contains("the resource does not exist") {
+        "missing"
+    } else if msg.contains("already mutably borrowed") || msg.contains("already immutably borrowed") || msg.contains("already borrowed") {
+        "borrow"
+    } else {
+        "other"
+    };
+    let mut res = 0;
+    for (i, s) in slots.iter().enumerate() {
+        let full = (s.tyname)();
+        let hit = match kind {
+            "missing" => msg.contains(&format!("`{}`", full)),
+            "borrow" => msg.starts_with(&format!("{}:", full)),
+            _ => false,
+        };
+        if hit {
+            res = i as u32 + 1;
+        }
+    }
+    (kind, res)
+}
+
+fn mk_world(slots: &[&'static Slot], vals: &[u32]) -> World {
+    let mut w = World::empty();
+    for (s, v) in slots.iter().zip(vals) {
+        if *v != 0 {
+            (s.insert)(&mut w, *v);
+        }
+    }
+    w
+}
+
+fn snapshot(slots: &[&'static Slot], w: &World) -> Vec<u32> {
+    slots.iter().map(|s| (s.get)(w).unwrap_or(0)).collect()
+}
+
+const FETCH_VIA: [&str; 4] = ["fetch", "system_data", "dynamic", "run_now"];
+const SETUP_VIA: [&str; 4] = ["type", "world", "dynamic", "run_now_setup"];
+
+struct FetchObs {
+    out: &'static str,
+    pres: u32,
+    alive: Vec<u8>,
+    after: Vec<u8>,
+    msg: String,
+}
+
+fn do_fetch(ops: &Ops, slots: &[&'static Slot], ids: &[ResourceId], present: &[bool], held: &[u8], via: usize, rng: &mut StdRng) -> FetchObs {
+    let vals: Vec<u32> = present.iter().map(|p| if *p { rng.gen_range(1..DEFAULT_BASE) } else { 0 }).collect();
+    let w = mk_world(slots, &vals);
+    // borrows held by somebody else
+    let mut guards: Vec<Held> = Vec::new();
+    for (i, h) in held.iter().enumerate() {
+        if *h == 0 {
+            continue;
+        }
+        let cell = unsafe { w.try_fetch_internal(ids[i].clone()) }.expect("held resource must be present");
+        if *h == 1 {
+            guards.push(Held::_R(cell.try_borrow().expect("pre-borrow")));
+        } else {
+            guards.push(Held::_W(cell.try_borrow_mut().expect("pre-borrow")));
+        }
+    }
+    let r = catch_unwind(AssertUnwindSafe(|| {
+        if via == 3 {
+            (ops.sys_run)(&w, ids)
+        } else {
+            (ops.fetch)(&w, via as u8, ids)
+        }
+    }));
+    let after = classify(&w, ids);
+    let obs = match r {
+        Ok(alive) => FetchObs { out: "ok", pres: 0, alive, after, msg: String::new() },
+        Err(p) => {
+            let msg = panic_text(p);
+            let (kind, res) = classify_panic(slots, &msg);
+            FetchObs { out: kind, pres: res, alive: after.clone(), after, msg }
+        }
+    };
+    drop(guards);
+    obs
+}
+
+struct SetupObs {
+    out: &'static str,
+    created: Vec<u32>,
+    w1: Vec<u32>,
+}
+
+fn do_setup(ops: &Ops, slots: &[&'static Slot], w0: &[u32], via: usize) -> SetupObs {
+    let mut w = mk_world(slots, w0);
+    take_default_log();
+    let r = catch_unwind(AssertUnwindSafe(|| {
+        if via == 3 {
+            (ops.sys_setup)(&mut w)
+        } else {
+            (ops.setup)(&mut w, via as u8)
+        }
+    }));
+    let log = take_default_log();
+    let created = log
+        .iter()
+        .map(|c| slots.iter().position(|s| s.has_default && s.idx == *c).map(|p| p as u32 + 1).unwrap_or(0))
+        .collect();
+    SetupObs { out: if r.is_ok() { "ok" } else { "panic" }, created, w1: snapshot(slots, &w) }
+}
+
+fn random_presence(n: usize, rng: &mut StdRng, k: usize) -> Vec<bool> {
+    match k {
+        0 => vec![true; n],
+        1 => vec![false; n],
+        2 => {
+            // all but one
+            let mut v = vec![true; n];
+            if n > 0 {
+                v[rng.gen_range(0..n)] = false;
+            }
+            v
+        }
+        _ => {
+            let p = *[0.2, 0.5, 0.8, 0.95].choose(rng).unwrap();
+            (0..n).map(|_| rng.gen_bool(p)).collect()
+        }
+    }
+}
+
+/// Record the trace block of one case.
+pub fn run_case(ops: &Ops, d: &CaseDesc, rng: &mut StdRng, ev: &mut Vec<Value>, st: &mut Stats) {
+    let slots: Vec<&'static Slot> = d.conc.iter().map(|n| slot_by_name(n).unwrap_or_else(|| panic!("unknown concrete type {}", n))).collect();
+    assert_eq!(slots.len(), d.nres);
+    let ids: Vec<ResourceId> = slots.iter().map(|s| (s.id)()).collect();
+    let dflt: Vec<u32> = slots.iter().map(|s| DEFAULT_BASE + s.idx as u32).collect();
+    let n0 = ev.len();
+    ev.push(json!({"ev":"reset","case":d.id,"origin":d.origin,"ty":d.ty,"shape":d.shape,"nres":d.nres,"dflt":dflt,
+                   "conc":d.conc}));
+
+    // ---- declarations: the type, and the accessor of a real System using it
+    let mut reported: Option<(Vec<u32>, Vec<u32>)> = None;
+    for (via, f) in [("type", ops.decl), ("accessor", ops.acc)] {
+        match catch_unwind(f) {
+            Ok((r, w)) => {
+                let (r, w) = (abstract_list(&slots, &r), abstract_list(&slots, &w));
+                if via == "type" {
+                    reported = Some((r.clone(), w.clone()));
+                }
+                ev.push(json!({"ev":"decl","via":via,"out":"ok","reads":r,"writes":w}));
+            }
+            Err(_) => ev.push(json!({"ev":"decl","via":via,"out":"panic","reads":[],"writes":[]})),
+        }
+    }
+
+    // ---- fetch runs
+    let mut fetch_runs: Vec<(Vec<bool>, Vec<u8>, Option<Expect>)> =
+        d.runs.iter().map(|r| (r.present.clone(), r.held.clone(), r.exp.clone())).collect();
+    if d.runs.is_empty() && d.nres <= 3 {
+        for m in 0..(1u32 << d.nres) {
+            fetch_runs.push(((0..d.nres).map(|i| m >> i & 1 == 1).collect(), vec![0; d.nres], None));
+        }
+    }
+    for k in 0..d.extra {
+        let present = random_presence(d.nres, rng, if d.runs.is_empty() && d.nres > 3 { k } else { 3 + k });
+        // sometimes somebody else already holds a borrow on a present resource
+        let mut held = vec![0u8; d.nres];
+        if rng.gen_bool(0.4) {
+            let cand: Vec<usize> = (0..d.nres).filter(|i| present[*i]).collect();
+            if let Some(i) = cand.choose(rng) {
+                held[*i] = rng.gen_range(1..=2);
+            }
+        }
+        fetch_runs.push((present, held, None));
+    }
+    for (k, (present, held, exp)) in fetch_runs.iter().enumerate() {
+        let via = if exp.is_some() { (k + d.id as usize) % 4 } else { rng.gen_range(0..4) };
+        let o = do_fetch(ops, &slots, &ids, present, held, via, rng);
+        st.fetch_runs += 1;
+        match o.out {
+            "ok" => st.fetch_ok += 1,
+            "missing" => st.fetch_missing += 1,
+            "borrow" => st.fetch_borrow += 1,
+            _ => st.fetch_other += 1,
+        }
+        if held.iter().any(|h| *h != 0) {
+            st.with_held += 1;
+        }
+        let mut e = json!({"ev":"fetch","via":FETCH_VIA[via],"present":present,"held":held,"out":o.out,"pres":o.pres,
+                           "alive":o.alive,"after":o.after});
+        if o.out == "other" {
+            e["msg"] = json!(o.msg.chars().take(200).collect::<String>());
+        }
+        if let Some(x) = exp {
+            // spec -> implementation: compare with the reference values TLC emitted for this state
+            st.model_runs += 1;
+            let n = x.alive.len();
+            let same = reported.as_ref().map(|(r, w)| *r == x.reads && *w == x.writes).unwrap_or(false)
+                && o.out == x.out
+                && (o.out == "ok" || o.pres == x.pres)
+                && o.alive[..n] == x.alive[..]
+                && o.after[..n] == x.after[..]
+                && o.alive[n..].iter().zip(&present[n..]).all(|(c, p)| *c == if *p { 0 } else { 3 });
+            if same {
+                st.model_matched += 1;
+            } else {
+                st.model_mismatch += 1;
+                if st.mismatch_samples.len() < 3 {
+                    st.mismatch_samples.push(json!({"case":d.id,"ty":d.ty,"observed":e,"reported":reported,
+                        "expected":{"reads":x.reads,"writes":x.writes,"out":x.out,"pres":x.pres,"alive":x.alive,"after":x.after}}));
+                }
+            }
+        }
+        ev.push(e);
+    }
+
+    // ---- setup runs: every presence subset (small cases) or sampled ones, distinctive values
+    let mut setups: Vec<(Vec<bool>, Option<Expect>)> = Vec::new();
+    if !d.runs.is_empty() {
+        for r in &d.runs {
+            if r.held.iter().all(|h| *h == 0) && !setups.iter().any(|(p, _)| *p == r.present) {
+                setups.push((r.present.clone(), r.exp.clone()));
+            }
+        }
+    } else if d.nres <= 3 {
+        for m in 0..(1u32 << d.nres) {
+            setups.push(((0..d.nres).map(|i| m >> i & 1 == 1).collect(), None));
+        }
+    }
+    for k in 0..d.extra {
+        setups.push((random_presence(d.nres, rng, if d.runs.is_empty() && d.nres > 3 { k } else { 3 + k }), None));
+    }
+    for (k, (present, exp)) in setups.iter().enumerate() {
+        let via = if exp.is_some() { (k + d.id as usize) % 4 } else { rng.gen_range(0..4) };
+        let w0: Vec<u32> = present.iter().map(|p| if *p { rng.gen_range(1..DEFAULT_BASE) } else { 0 }).collect();
+        let o = do_setup(ops, &slots, &w0, via);
+        st.setup_runs += 1;
+        let e = json!({"ev":"setup","via":SETUP_VIA[via],"w0":w0,"out":o.out,"created":o.created,"w1":o.w1});
+        if let Some(x) = exp {
+            st.model_runs += 1;
+            let n = x.w1.len();
+            let same = o.out == "ok"
+                && o.created == x.created
+                && (0..n).all(|i| (o.w1[i] != 0) == x.w1[i] && (w0[i] == 0 || o.w1[i] == w0[i]) && (w0[i] != 0 || o.w1[i] == 0 || o.w1[i] == dflt[i]))
+                && (n..d.nres).all(|i| o.w1[i] == w0[i]);
+            if same {
+                st.model_matched += 1;
+            } else {
+                st.model_mismatch += 1;
+                if st.mismatch_samples.len() < 3 {
+                    st.mismatch_samples.push(json!({"case":d.id,"ty":d.ty,"observed":e,"expected":{"created":x.created,"w1":x.w1}}));
+                }
+            }
+        }
+        ev.push(e);
+    }
+    st.cases += 1;
+    st.events += ev.len() - n0;
+}
